@@ -100,6 +100,11 @@ func hookBadger(repo, out string, replace map[string]string) ([]string, error) {
 		"\t// Nothing gets updated to LSM, until a restart happens.\n\tverifErr := txnCb()\n\tif VerifHook != nil {\n\t\tVerifHook(VerifAfterCommit)\n\t}\n\treturn verifErr\n"); err != nil {
 		return nil, err
 	}
+	// asynchronous commit: the crash engine may decide that it has not reached the log when the process dies
+	if err := sub("\tdefer txn.Discard()\n\n\tcommitCb, err := txn.commitAndSend()\n",
+		"\tdefer txn.Discard()\n\n\tif VerifAsyncHold != nil && VerifAsyncHold() {\n\t\treturn\n\t}\n\tcommitCb, err := txn.commitAndSend()\n"); err != nil {
+		return nil, err
+	}
 	// snapshot (read timestamp) taken
 	if err := sub("func (db *DB) NewTransaction(update bool) *Txn {\n\treturn db.newTransaction(update, false)\n}",
 		"func (db *DB) NewTransaction(update bool) *Txn {\n\tif VerifHook != nil {\n\t\tVerifHook(VerifSnapshot)\n\t}\n\treturn db.newTransaction(update, false)\n}"); err != nil {
@@ -117,6 +122,10 @@ const (
 // VerifHook is called before a transaction takes its read timestamp, before a
 // non-empty transaction commits and after the commit returned.
 var VerifHook func(ev int)
+
+// VerifAsyncHold is asked by CommitWith (asynchronous commit) whether this commit is to be treated as not
+// having reached the write-ahead log before the process dies; if it answers true nothing is sent.
+var VerifAsyncHold func() bool
 `
 	dst := filepath.Join(out, "gen", "badger", "txn.go")
 	if err := os.MkdirAll(filepath.Dir(dst), 0o755); err != nil {
@@ -128,7 +137,7 @@ var VerifHook func(ev int)
 		}
 	}
 	replace[filepath.Join(dir, "txn.go")] = dst
-	return []string{"badger " + ver + ": txn.go hooked (snapshot, before-commit, after-commit)"}, nil
+	return []string{"badger " + ver + ": txn.go hooked (snapshot, before-commit, after-commit, async-commit hold)"}, nil
 }
 
 // rewriteFile instruments one source file. Rewrites:
